@@ -38,7 +38,8 @@ def strategy(draw, tier="quick"):
         gen_spec(
             sched="rr", allow_rels=True, rel_kinds=("conf",), allow_same_trans_conf=False, allow_if=False,
             allow_switch=False, allow_fsm=False, allow_chain=False, allow_validate=False, allow_data=False,
-            allow_alias=False, allow_mods=False, max_trans=5, max_methods=4, max_space=1, nvals=1,
+            allow_alias=False, allow_mods=False, min_trans=2, max_trans=5, max_methods=3, max_space=1, nvals=1,
+            nonex_rate=1, min_rels=0,
         )
     )
     an = analyze(spec)
